@@ -506,6 +506,20 @@ impl RepositoryState {
         Ok(())
     }
 
+    /// Hook H7: public access to `parse` for the verification harness.
+    #[cfg(routinator_verif)]
+    pub fn verif_parse(reader: &mut impl io::Read) -> Result<Self, io::Error> {
+        Self::parse(reader)
+    }
+
+    /// Hook H7: public access to `compose` for the verification harness.
+    #[cfg(routinator_verif)]
+    pub fn verif_compose(
+        &self, writer: &mut impl io::Write
+    ) -> Result<(), io::Error> {
+        self.compose(writer)
+    }
+
     /// Returns the last update time as proper timestamp.
     ///
     /// Returns `None` if the time cannot be converted into a timestamp for
